@@ -188,32 +188,42 @@ def readEndTag (s : Str) : Option (Str × Str) :=
     (a literal `\r\n` or `\r` reads as `\n`) -/
 def readUnit : Str → Option (Char × Str)
   | [] => none
-  | '&' :: r => readRef r
-  | '<' :: _ => none
-  | '\r' :: '\n' :: r => some ('\n', r)
-  | '\r' :: r => some ('\n', r)
-  | c :: r => if isXmlChar c then some (c, r) else none
+  | c :: r =>
+    if c = '&' then readRef r
+    else if c = '<' then none
+    else if c = '\r' then
+      match r with
+      | '\n' :: r' => some ('\n', r')
+      | _ => some ('\n', r)
+    else if isXmlChar c then some (c, r) else none
 
 /-- character data up to the next `<` (or the end of the input), decoded -/
 def readTextF : Nat → Str → Option (Str × Str)
   | 0, _ => none
   | _ + 1, [] => some ([], [])
-  | _ + 1, '<' :: r => some ([], '<' :: r)
   | n + 1, c :: r =>
-    match readUnit (c :: r) with
-    | some (d, r') => (readTextF n r').map (fun p => (d :: p.1, p.2))
-    | none => none
+    if c = '<' then some ([], c :: r)
+    else
+      match readUnit (c :: r) with
+      | some (d, r') => (readTextF n r').map (fun p => (d :: p.1, p.2))
+      | none => none
 
 def readText (s : Str) : Option (Str × Str) := readTextF (s.length + 1) s
 
 /-- production [15] Comment, input positioned just after the `<!--` -/
 def readComment : Str → Option (Str × Str)
   | [] => none
-  | '-' :: '-' :: '>' :: r => some ([], r)
-  | '-' :: '-' :: _ => none
-  | '\r' :: '\n' :: r => (readComment r).map (fun p => ('\n' :: p.1, p.2))
-  | '\r' :: r => (readComment r).map (fun p => ('\n' :: p.1, p.2))
-  | c :: r => if isXmlChar c then (readComment r).map (fun p => (c :: p.1, p.2)) else none
+  | c :: r =>
+    if c = '-' then
+      if r.head? = some '-' then
+        (if r.tail.head? = some '>' then some ([], r.tail.tail) else none)
+      else (readComment r).map (fun p => ('-' :: p.1, p.2))
+    else if c = '\r' then
+      -- `\r\n` reads as one `\n` (the `\r` is dropped, the `\n` is read next); a lone `\r` as `\n`
+      if r.head? = some '\n' then readComment r
+      else (readComment r).map (fun p => ('\n' :: p.1, p.2))
+    else if isXmlChar c then (readComment r).map (fun p => (c :: p.1, p.2))
+    else none
 
 /-! ### one element with text content (what `build_xml_tag` writes) -/
 
@@ -248,23 +258,31 @@ inductive Item where
 def readItemsF : Nat → Str → Option (List Item)
   | 0, _ => none
   | _ + 1, [] => some []
-  | n + 1, '<' :: '!' :: '-' :: '-' :: r =>
-    match readComment r with
-    | some (t, r') => (readItemsF n r').map (Item.comment t :: ·)
-    | none => none
-  | n + 1, '<' :: '/' :: r =>
-    match readEndTag r with
-    | some (nm, r') => (readItemsF n r').map (Item.close nm :: ·)
-    | none => none
-  | n + 1, '<' :: r =>
-    match readStartTag r with
-    | some (nm, attrs, e, r') =>
-      (readItemsF n r').map ((if e then Item.empty nm attrs else Item.start nm attrs) :: ·)
-    | none => none
   | n + 1, c :: r =>
-    match readUnit (c :: r) with
-    | some (d, r') => (readItemsF n r').map (Item.ch d :: ·)
-    | none => none
+    if c = '<' then
+      match r with
+      | [] => none
+      | d :: r1 =>
+        if d = '!' then
+          match r1 with
+          | '-' :: '-' :: r2 =>
+            match readComment r2 with
+            | some (t, r') => (readItemsF n r').map (Item.comment t :: ·)
+            | none => none
+          | _ => none
+        else if d = '/' then
+          match readEndTag r1 with
+          | some (nm, r') => (readItemsF n r').map (Item.close nm :: ·)
+          | none => none
+        else
+          match readStartTag (d :: r1) with
+          | some (nm, attrs, e, r') =>
+            (readItemsF n r').map ((if e then Item.empty nm attrs else Item.start nm attrs) :: ·)
+          | none => none
+    else
+      match readUnit (c :: r) with
+      | some (d, r') => (readItemsF n r').map (Item.ch d :: ·)
+      | none => none
 
 def readItems (s : Str) : Option (List Item) := readItemsF (s.length + 1) s
 
